@@ -194,6 +194,38 @@ type MemStore struct {
 	watchers []func(key string, value []byte, deleted bool)
 	// QueryPerm, if set, permutes Query results.
 	QueryPerm func(n int) []int
+	// KeepSnaps records a copy of Data after every successful write (crash points for C12).
+	KeepSnaps bool
+	Snaps     []map[string][]byte
+	// Pending, if non-nil, collects change notifications instead of nobody hearing them (multi-node C12).
+	Pending *[]Change
+}
+
+// Change is one store change notification.
+type Change struct {
+	Key     string
+	Value   []byte
+	Deleted bool
+}
+
+func (m *MemStore) snap() {
+	if !m.KeepSnaps {
+		return
+	}
+	c := make(map[string][]byte, len(m.Data))
+	for k, v := range m.Data {
+		c[k] = append([]byte(nil), v...)
+	}
+	m.Snaps = append(m.Snaps, c)
+}
+
+// FromSnapshot builds a store holding a copy of snap.
+func FromSnapshot(snap map[string][]byte) *MemStore {
+	n := NewMemStore()
+	for k, v := range snap {
+		n.Data[k] = append([]byte(nil), v...)
+	}
+	return n
 }
 
 func NewMemStore() *MemStore { return &MemStore{Data: map[string][]byte{}} }
@@ -238,6 +270,10 @@ func (m *MemStore) Put(ctx context.Context, key string, value []byte) error {
 	}
 	m.Data[key] = append([]byte(nil), value...)
 	m.Log = append(m.Log, "put "+key)
+	m.snap()
+	if m.Pending != nil {
+		*m.Pending = append(*m.Pending, Change{Key: key, Value: append([]byte(nil), value...)})
+	}
 	return nil
 }
 func (m *MemStore) Delete(ctx context.Context, key string) error {
@@ -249,6 +285,10 @@ func (m *MemStore) Delete(ctx context.Context, key string) error {
 	}
 	delete(m.Data, key)
 	m.Log = append(m.Log, "del "+key)
+	m.snap()
+	if m.Pending != nil {
+		*m.Pending = append(*m.Pending, Change{Key: key, Deleted: true})
+	}
 	return nil
 }
 func (m *MemStore) Query(ctx context.Context, prefix string) ([]allocator.KeyValue, error) {
@@ -1021,3 +1061,9 @@ func (m *syncNexusStore) Watch(prefix string, cb nexus.WatchCallback) {
 	m.mu.Unlock()
 }
 func (m *syncNexusStore) Close() error { return nil }
+
+func (p *distLeasePool) FaultPending() bool { return p.in.FaultPending() }
+
+var _ FaultInjectable = (*distLeasePool)(nil)
+var _ FaultInjectable = (*distPool)(nil)
+var _ FaultInjectable = (*poolAllocPool)(nil)
